@@ -484,6 +484,11 @@ def build(S):
         S.contract("profiles[extrapolate,psi decreasing]", FN_INIT, run_extrapolate(False), shape="4 profile points")
         S.contract("profiles[sign/2pi preprocessing]", FN_INIT, run_preprocess, shape="3 profile points, 2x2 psi")
         add_extrapolate_preprocessed(S)
+        from . import C17
+
+        # the g-file route hands the file's flux to the constructor unscaled: psi_divide_twopi / reverse_current act once
+        S.under_contract(C17.FN_RG)
+        S.contract("read_geqdsk[psi_divide_twopi+reverse_current]", C17.FN_RG, C17.run_read_geqdsk(2, 3, True, settings=dict(psi_divide_twopi=True, reverse_current=True)), shape="nx=2, ny=3")
         _, nst = critical_block()
         S.extraction.append(dict(function="TokamakEquilibrium.__init__[critical points]", sliced="%d statements (meshgrid, find_critical ... self.psi_sep) compiled as a function of (self, R1D, Z1D, psi2D, psi_axis_gfile, psi_bdry_gfile); nothing dropped" % nst))
         for rev in (False, True):
